@@ -25,7 +25,7 @@ type c19Ev struct {
 	A      string `json:"a"`      // request header X-A ("" = absent)
 	Origin string `json:"origin"` // long | stale | swr | post200 | post500
 	Vary   string `json:"vary"`
-	Val    string `json:"val"` // answer to a conditional request: 304 | 200
+	Val    string `json:"val"`            // answer to a conditional request: 304 | 200
 	Nest   bool   `json:"nest,omitempty"` // while the conditional request is at the origin, a POST for the same URI completes through the same transport
 }
 
@@ -220,7 +220,9 @@ func c19Scenarios(tier string) []c19Scenario {
 	as := []string{"1", "2"}
 	origins := []string{"long", "stale", "swr"}
 	// one scenario per (origin kind, pair of Vary specs): both variants, both validation answers, plus invalidation
-	varyPairs := [][2]string{{"X-A", "*"}, {"X-A", ""}, {"X-A", "X-B"}, {"*", ""}, {"X-A", "X-A"}, {"X-B, X-A", "X-A"}, {"X-A, *", "X-A, *"}, {"X-A, *", "X-A"}}
+	varyPairs := [][2]string{{"X-A", "*"}, {"X-A", ""}, {"X-A", "X-B"}, {"*", ""}, {"X-A", "X-A"}, {"X-B, X-A", "X-A"}, {"X-A, *", "X-A, *"}, {"X-A, *", "X-A"},
+		// a field value the index format cannot hold verbatim (obs-text): repeated identical requests must still not add to the store
+		{"X-A, X-\xff", "*, X-\xff"}}
 	for _, og := range origins {
 		for _, vp := range varyPairs {
 			var evs []c19Ev
